@@ -492,29 +492,45 @@ def rule_h0_block_diagonal(rep: Report, repo: Repo):
             if isinstance(p, ast.For):
                 loops.append(p)
         lits = path_condition(r, f)
-        if len(loops) == 2 and any("zero" in norm(t) for t, _ in lits):
+        is_pair_loop = len(loops) == 1 and isinstance(loops[0].target, ast.Tuple) and len(loops[0].target.elts) == 2
+        if (len(loops) == 2 or is_pair_loop) and any("zero" in norm(t) for t, _ in lits):
             cands.append((r, loops))
     if len(cands) != 1:
         raise AnalysisError(R, f"{len(cands)} candidate raise statements for the block-diagonality check of H_0 "
-                               "(a ValueError inside a two-level loop guarded by an `is zero` test)")
-    r, (inner, outer) = cands[0][0], cands[0][1]
-    if not (isinstance(outer.target, ast.Name) and isinstance(inner.target, ast.Name) and inner in outer.body):
-        raise AnalysisError(R, "loop nest of the H_0 check not understood")
-    I, J = outer.target.id, inner.target.id
+                               "(a ValueError inside a loop over block pairs guarded by an `is zero` test)")
+    r, lp = cands[0][0], cands[0][1]
     N = 3
     base = {"H.shape[0]": N, "H.shape[1]": N, "len(H.shape)": 2}
-    visited = {}
-    guard_rows = set()
-    for herm in (False, True):
-        seen = set()
+    if len(lp) == 2:
+        inner, outer = lp
+        if not (isinstance(outer.target, ast.Name) and isinstance(inner.target, ast.Name) and inner in outer.body):
+            raise AnalysisError(R, "loop nest of the H_0 check not understood")
+        I, J = outer.target.id, inner.target.id
         ov = _range_values(outer.iter, base)
         if ov is None:
             raise AnalysisError(R, f"outer loop range `{norm(outer.iter)}` is not closed over the block grid")
+        points = []
         for i in ov:
             iv = _range_values(inner.iter, {**base, I: i})
             if iv is None:
                 raise AnalysisError(R, f"inner loop range `{norm(inner.iter)}` is not closed over the block grid")
-            for j in iv:
+            points += [(i, j) for j in iv]
+    else:
+        inner = outer = lp[0]
+        I, J = (norm(e) for e in outer.target.elts)
+        it = outer.iter
+        if not (isinstance(it, ast.Call) and call_name(it) in ("product", "itertools.product") and len(it.args) == 2 and not it.keywords):
+            raise AnalysisError(R, f"pair loop iterates `{norm(it)[:60]}`: not understood")
+        r0, r1 = _range_values(it.args[0], base), _range_values(it.args[1], base)
+        if r0 is None or r1 is None:
+            raise AnalysisError(R, f"pair loop ranges `{norm(it)[:60]}` are not closed over the block grid")
+        points = [(i, j) for i in r0 for j in r1]
+    visited = {}
+    guard_rows = set()
+    for herm in (False, True):
+        seen = set()
+        for i, j in points:
+            if True:
                 sub = {**base, I: i, J: j, "hermitian": herm}
                 atom = lambda n, sub=sub: _const_eval(n, sub)
                 for o in outcomes(inner.body, None, env={}, atom=atom, expand=False):
@@ -537,15 +553,26 @@ def rule_h0_block_diagonal(rep: Report, repo: Repo):
                                 blocks.add((a_ % N, b_ % N))
                     if len(blocks) != 1:
                         raise AnalysisError(R, f"the rejecting path for loop point ({i}, {j}) tests {len(blocks)} blocks of H")
-                    seen |= blocks
                     # remaining guard: raise iff the block is non-zero and not a symbolic expression
-                    row = []
-                    for t, pol in free:
-                        for a_ in bool_atoms(t):
-                            tx, apol = canon_atom(a_)
-                            kind = "zero" if " is zero" in tx else ("symbolic" if tx.startswith("isinstance(") and "sympy." in tx else "?" + tx)
-                            row.append((kind, pol if apol else not pol, len(bool_atoms(t))))
-                    guard_rows.add(tuple(sorted(row)))
+                    fires = set()
+                    for z, sy in product([False, True], repeat=2):
+                        def gatom(n, z=z, sy=sy):
+                            tx, apol = canon_atom(n)
+                            if tx.endswith(" is zero"):
+                                return z if apol else not z
+                            if tx.startswith("isinstance(") and "sympy." in tx:
+                                return sy if apol else not sy
+                            return _const_eval(n, sub)
+                        vals = [eval_bool(t, gatom) for t, _p in free]
+                        if None in vals:
+                            raise AnalysisError(R, f"the rejection of a non-zero block depends on a condition that is not understood: "
+                                                   f"`{norm(free[vals.index(None)][0])[:70]}`")
+                        if all(v == p for v, (_t, p) in zip(vals, free)):
+                            fires.add((z, sy))
+                    if (False, False) in fires:
+                        seen |= blocks  # a non-zero, non-symbolic value of this block is rejected
+                    if fires:
+                        guard_rows.add(frozenset(fires))
         visited[herm] = seen
     offd = {(a_, b_) for a_ in range(N) for b_ in range(N) if a_ != b_}
     diag_hit = [herm for herm, s_ in visited.items() if any(a_ == b_ for a_, b_ in s_)]
@@ -556,11 +583,9 @@ def rule_h0_block_diagonal(rep: Report, repo: Repo):
               f"blocks whose non-zero value is rejected on a 3 x 3 grid: hermitian=False {sorted(visited[False])}, hermitian=True {sorted(visited[True])}"
               + ("; a diagonal block is rejected" if diag_hit else ""), loc(r))
     rep.ok(R, f"{MOD}::block_diagonalize block-diagonality check visits every block pair", "loop nest folded over the grid", loc(outer))
-    want_row = {(("symbolic", False, 1), ("zero", False, 1))}
-    if any(k.startswith("?") for row in guard_rows for k, _p, _n in row):
-        raise AnalysisError(R, f"the rejection of a non-zero block depends on a condition that is not understood: {sorted(guard_rows)}")
+    want_row = {frozenset({(False, False)})}
     rep.check(guard_rows == want_row, R, f"{MOD}::block_diagonalize the tested block is H[i, j] at order zero",
-              f"a visited block is rejected iff it is not `zero` and not a symbolic expression: {sorted(guard_rows)}", loc(r))
+              f"(block is zero, block is symbolic) valuations that are rejected: {sorted(map(sorted, guard_rows))}; required only (False, False)", loc(r))
     loops = [inner, outer]
     # dominance: the loop and the zero-diagonal check precede series_computation
     g = CFG(f)
@@ -629,39 +654,60 @@ def rule_guard_dominance(rep: Report, repo: Repo):
                   ("solve_sylvester_direct", "solve_sylvester_KPM", "operator_to_BlockSeries")][0]
             rep.check(not reached, R, f"{MOD}::block_diagonalize biorthonormality is checked before `{nm}` uses the eigenvectors",
                       "whenever subspace_eigenvectors is given", loc(u.ast))
-    # inside _check_biorthonormality
+    # inside _check_biorthonormality: per value kind, the only rejection is `overlap != identity` with overlap = L^H R
+    from .sem import Scope, canon, inline, outcomes
     cb = repo.find(f"{MOD}::_check_biorthonormality", R)
-    from . import linden as ld
+    scope = Scope(repo.trees[MOD], cb)
+    NUM_T = "isinstance(right_subspaces[0], (np.ndarray, sparse.spmatrix, sparse.sparray))"
+    SYM_T = "isinstance(right_subspaces[0], sympy.MatrixBase)"
+    DENSE = lambda side: (f"np.hstack([_v0.toarray() if sparse.issparse(_v0) else _v0 for _v0 in {side}_subspaces])",)
+    SYMST = lambda side: (f"sympy.Matrix.hstack(*{side}_subspaces)",)
     n_br = 0
-    for br in [s for s in cb.body if isinstance(s, ast.If)]:
-        for sub in [br] + [x for x in br.orelse if isinstance(x, ast.If)]:
-            asg = {norm(s.targets[0]): s.value for s in sub.body if isinstance(s, ast.Assign)}
-            if "overlap" not in asg:
-                continue
-            n_br += 1
-            kind = "numeric" if "np.ndarray" in norm(sub.test) else "symbolic"
-            env = {"all_left": ld.atom("L"), "all_right": ld.atom("R")}
-            den = ld.Den(env, R).ev(asg["overlap"])
-            okden = den == ld.mul(ld.adjoint(ld.atom("L")), ld.atom("R"))
-            rep.check(okden, R, f"{MOD}::_check_biorthonormality[{kind}] overlap denotes L^H.R", ld.show(den), loc(sub))
-            for which, src in (("all_left", "left_subspaces"), ("all_right", "right_subspaces")):
-                v = asg.get(which)
-                ok = v is not None and src in norm(v) and ("hstack" in norm(v))
-                rep.check(ok, R, f"{MOD}::_check_biorthonormality[{kind}] {which} stacks {src}", norm(v)[:70] if v is not None else "", loc(sub))
-            ifs = [s for s in sub.body if isinstance(s, ast.If)]
-            ok = False
-            if len(ifs) == 1 and isinstance(ifs[0].body[0], ast.Raise) and "ValueError" in norm(ifs[0].body[0]):
-                t = ifs[0].test
-                tt = norm(t)
-                if kind == "numeric":
-                    ok = isinstance(t, ast.UnaryOp) and isinstance(t.op, ast.Not) and call_name(t.operand) == "np.allclose" \
-                        and norm(t.operand.args[0]) == "overlap" and norm(t.operand.args[1]).startswith("np.eye(")
-                else:
-                    ok = tt in ("sympy.Eq(overlap, sympy.eye(all_right.shape[1])) == False",
-                                "sympy.Eq(overlap, sympy.eye(all_right.shape[1])) is sympy.false",
-                                "sympy.Eq(overlap, sympy.eye(all_right.shape[1])) is False")
-            rep.check(ok, R, f"{MOD}::_check_biorthonormality[{kind}] raises ValueError unless overlap is the identity",
-                      norm(ifs[0].test) if ifs else "", loc(sub))
+    for kind in ("numeric", "symbolic", "other"):
+        def atom(n, kind=kind):
+            t = norm(canon(n))
+            if t == NUM_T:
+                return kind == "numeric"
+            if t == SYM_T:
+                return kind == "symbolic"
+            return None
+        raising, passing = [], 0
+        for o in outcomes(cb.body, scope, env={}, atom=atom, expand=False):
+            free = [(t, p) for t, p in o.conds if eval_bool(t, atom) is None]
+            if o.kind == "raise":
+                raising.append((o, free))
+            else:
+                passing += 1
+        if kind == "other":
+            rep.check(not raising and passing >= 1, R, f"{MOD}::_check_biorthonormality values of other types are not checked (no rejection)",
+                      "", loc(cb))
+            continue
+        if len(raising) != 1 or len(raising[0][1]) != 1:
+            raise AnalysisError(R, f"_check_biorthonormality[{kind}]: {len(raising)} rejecting paths / undecided conditions")
+        n_br += 1
+        o, [(test, pol)] = raising[0]
+        t = inline(canon(test), scope)
+        ok, detail = False, norm(t)[:160]
+        stack = DENSE if kind == "numeric" else SYMST
+        def overlap_ok(e):
+            return any(norm(e) == f"Dagger({l}) @ {r_}" or norm(e) == f"{l}.conj().T @ {r_}" for l in stack("left") for r_ in stack("right"))
+        if kind == "numeric":
+            c = t.operand if isinstance(t, ast.UnaryOp) and isinstance(t.op, ast.Not) else t
+            neg = c is not t
+            if isinstance(c, ast.Call) and call_name(c) == "np.allclose" and len(c.args) == 2:
+                kw = {k.arg: norm(k.value) for k in c.keywords}
+                eye = c.args[1]
+                ok = (neg == pol) and overlap_ok(c.args[0]) and kw == {"atol": "atol"} and isinstance(eye, ast.Call) \
+                    and call_name(eye) in ("np.eye", "np.identity") and any(norm(eye.args[0]) == f"{r_}.shape[1]" for r_ in stack("right"))
+        else:
+            # sympy three-valued logic: reject only when the equality is provably False
+            if isinstance(t, ast.Compare) and len(t.ops) == 1 and isinstance(t.ops[0], (ast.Eq, ast.Is)) and pol \
+                    and norm(t.comparators[0]) in ("False", "sympy.false") and isinstance(t.left, ast.Call) and call_name(t.left) == "sympy.Eq":
+                a0, a1 = t.left.args
+                ok = overlap_ok(a0) and isinstance(a1, ast.Call) and call_name(a1) == "sympy.eye" \
+                    and any(norm(a1.args[0]) == f"{r_}.shape[1]" for r_ in stack("right"))
+        rep.check(ok, R, f"{MOD}::_check_biorthonormality[{kind}] raises ValueError unless overlap is the identity", detail, loc(o.node))
+        rep.check(ok, R, f"{MOD}::_check_biorthonormality[{kind}] overlap denotes L^H.R", "Dagger(hstack(left)) @ hstack(right)", loc(o.node))
     rep.floor(R, "branches of _check_biorthonormality", n_br, 2)
 
 
